@@ -26,6 +26,7 @@ type C16Case struct {
 	RecvLen int    `json:"recvlen"` // initial elements of an initialised receiver
 	RecvCap int    `json:"recvcap"` // 0 none
 	RO      bool   `json:"ro"`
+	Amb     int    `json:"amb,omitempty"`
 	In      []MIn  `json:"in"`
 }
 
@@ -311,6 +312,7 @@ func runC16(c C16Case) (st Stats, err error) {
 			for i := 0; i < c.RecvLen; i++ {
 				r.Push(tagValue(i + 1))
 			}
+			ApplyAmbient(r, c.Amb&^AmbPushOK)
 			if c.RO {
 				r.SetReadOnly(true)
 			}
@@ -592,6 +594,7 @@ func genC16(t *rapid.T, tier Tier) C16Case {
 			c.RecvCap = c.RecvLen + rapid.IntRange(0, 2).Draw(t, "capextra")
 		}
 		c.RO = rapid.IntRange(0, 5).Draw(t, "ro") == 0
+		c.Amb = drawAmbient(t, false)
 	}
 	hostile := rapid.IntRange(0, 9).Draw(t, "hostile") < 6
 	env := genEnvelope(t, depth, hostile)
